@@ -6,7 +6,7 @@ stable = b['stable_pass']
 if isinstance(stable, str):
     stable = ast.literal_eval(stable)
 fd, xml = tempfile.mkstemp(suffix='.xml'); os.close(fd)
-cmd = 'cd /repo && /venv/bin/python -m pytest -ra -q -p no:cacheprovider --timeout=900 --continue-on-collection-errors --junitxml=%s' % xml
+cmd = 'cd ' + os.environ.get('REPO_DIR', '/repo') + ' && /venv/bin/python -m pytest -ra -q -p no:cacheprovider --timeout=900 --continue-on-collection-errors --junitxml=%s' % xml
 p = subprocess.run(cmd, shell=True, capture_output=True, text=True)
 passed = set()
 for tc in ET.parse(xml).getroot().iter('testcase'):
